@@ -435,7 +435,13 @@ impl<S: Spec, C: flatcontainer::impls::index::IndexContainer<Idx<S>> + 'static> 
             v.extend(0..self.values.len() as u32);
         }
         let nb = self.batches.len() as u32;
-        for r in 0..4u32 {
+        for r in 0..6u32 {
+            if r == 4 && self.caps.reserve_items.is_none() {
+                continue;
+            }
+            if r == 5 && !self.e.has_reserve_regions {
+                continue;
+            }
             for b in 0..nb {
                 v.push(1000 + r * nb + b);
             }
@@ -454,6 +460,8 @@ impl<S: Spec, C: flatcontainer::impls::index::IndexContainer<Idx<S>> + 'static> 
             "stack := merge_capacity([self, stack holding the batch]), re-copy own items",
             "reserve(batch length) (index share only)",
             "stack := with_capacity(batch length) (index share only)",
+            "FlatStack::reserve_items(&batch) (region share only)",
+            "FlatStack::reserve_regions([region holding the batch]) (region share only)",
         ][r as usize];
         format!("{route}; then copy exactly [{}]", batch.join(", "))
     }
@@ -476,6 +484,7 @@ impl<S: Spec, C: flatcontainer::impls::index::IndexContainer<Idx<S>> + 'static> 
         // only vector-backed structural regions promise not to reallocate (C17); for the others the
         // FlatStack's own vector index storage is what is checked
         let mut index_only = !self.e.vector_backed;
+        let mut region_only = false;
         match route {
             0 => {
                 let src = self.stack_of(&ids);
@@ -491,9 +500,22 @@ impl<S: Spec, C: flatcontainer::impls::index::IndexContainer<Idx<S>> + 'static> 
                 self.st.reserve(ids.len());
                 index_only = true;
             }
-            _ => {
+            3 => {
                 self.st = FS::<S, C>::with_capacity(ids.len());
                 index_only = true;
+            }
+            4 => {
+                let batch: Vec<S::V> = ids.iter().map(|i| self.values[*i].clone()).collect();
+                (self.caps.reserve_items.unwrap())(&mut self.st, &batch);
+                region_only = true;
+            }
+            _ => {
+                let mut src: S::R = Default::default();
+                for i in &ids {
+                    let _ = S::canon_push(&mut src, &self.values[*i]);
+                }
+                self.st.reserve_regions(std::iter::once(&src));
+                region_only = true;
             }
         }
         to_copy.extend(ids.iter().map(|i| self.values[*i].clone()));
@@ -512,7 +534,18 @@ impl<S: Spec, C: flatcontainer::impls::index::IndexContainer<Idx<S>> + 'static> 
         };
         let after = stack_caps::<S, C>(&self.st);
         let k = self.caps.index_callbacks;
-        let (b, a) = if index_only { (&before[before.len() - k..], &after[after.len() - k..]) } else { (&before[..], &after[..]) };
+        if region_only && !self.e.vector_backed {
+            // neither share is promised to stay put
+            self.tags.push(format!("stack-route{route}:not-applicable"));
+            return Step::Ok;
+        }
+        let (b, a) = if region_only {
+            (&before[..before.len() - k], &after[..after.len() - k])
+        } else if index_only {
+            (&before[before.len() - k..], &after[after.len() - k..])
+        } else {
+            (&before[..], &after[..])
+        };
         if b != a {
             return Step::Violation(format!(
                 "capacities changed while copying exactly the announced contents ({} items): {before:?} -> {after:?}{}",
@@ -520,7 +553,7 @@ impl<S: Spec, C: flatcontainer::impls::index::IndexContainer<Idx<S>> + 'static> 
                 if index_only { " (index share = last entries)" } else { "" }
             ));
         }
-        if !index_only && self.e.plain && self.caps.copy_ref.is_some() && calls != 0 {
+        if !index_only && !region_only && self.e.plain && self.caps.copy_ref.is_some() && calls != 0 {
             return Step::Violation(format!("{calls} allocator calls while copying exactly the announced plain-data contents"));
         }
         self.tags.push(format!("stack-route{route}:batch{}", ids.len()));
